@@ -245,14 +245,17 @@ def _structural(ctx, s, mode, var, names, pts, what0):
                 if va.kind != "num" or vb.kind != "num":
                     ctx.violation("located_component_failed", f"{what0} at {S.show_point(p)}: component {v}: {va.brief()} / {vb.brief()}")
                 elif va.numbits() != vb.numbits():
-                    if v in names:
+                    if v not in names:
+                        if va.value != vb.value:
+                            ctx.violation("differential_at_components_differ", f"{what0} at {S.show_point(p)}: absent variable {v}: {va.value!r} vs {vb.value!r}")
+                    elif not early_d:
+                        # (an early Differential evaluates its simplified partial expressions: those values are judged
+                        # against their own expression's enclosure in the main part of the check, not here)
                         _, d_, da_, _ = R.NORMAL.derivative(s, p, v, res=res)
                         if not (R.too_big(d_, R._DBIG_RAW) or R.too_big(da_, R._DBIG_RAW)) and C.d_decisive(d_, da_):
                             enc_ = R.slack_interval(d_, da_, 16)
                             if not (R.contains(enc_, va.value) and R.contains(enc_, vb.value)):
-                                ctx.violation("differential_at_components_differ", f"{what0} at {S.show_point(p)}: Differential(e, compute_early={early_d}).at(p).component({v}) = {va.value!r}, LocatedDifferential(e, p).component({v}) = {vb.value!r}, true partial in [{R.lo_float(enc_)!r}, {R.hi_float(enc_)!r}]")
-                    elif va.value != vb.value:
-                        ctx.violation("differential_at_components_differ", f"{what0} at {S.show_point(p)}: absent variable {v}: {va.value!r} vs {vb.value!r}")
+                                ctx.violation("differential_at_components_differ", f"{what0} at {S.show_point(p)}: Differential(e).at(p).component({v}) = {va.value!r}, LocatedDifferential(e, p).component({v}) = {vb.value!r}, true partial in [{R.lo_float(enc_)!r}, {R.hi_float(enc_)!r}]")
                     ctx.count("located_components_not_bit_identical")
 
 
